@@ -115,7 +115,7 @@ def checkC13 (_h : History) (obs : List RunObs) : Option String :=
     match obs[k]? with
     | none => none
     | some o =>
-      if o.anomaly ≠ "" then some s!"C13 run {k}: {o.anomaly}"
+      if o.anomaly ≠ "" && !("early-timeout".isPrefixOf o.anomaly) then some s!"C13 run {k}: {o.anomaly}"
       else if !o.closed then some s!"C13 run {k}: event channel not closed"
       else if o.late > 0 then some s!"C13 run {k}: {o.late} API requests after the channel closed"
       else if !(eventsWellFormed (planOf o.events) (o.events.map toEvent)) then some s!"C13 run {k}: event stream violates the grammar"
@@ -392,7 +392,8 @@ def checkC12 (h : History) (obs : List RunObs) : Option String :=
           -- the request log after the close is empty (checked by C13.late); inventory never shrinks below live objects (C01)
           none
         else none
-      (badTimeout <|> badCancel).map (fun s => s!"C12 run {k}: {s}")
+      let early := if "early-timeout".isPrefixOf o.anomaly then some o.anomaly else none
+      (badTimeout <|> badCancel <|> early).map (fun s => s!"C12 run {k}: {s}")
     | _, _ => none
 
 /-! ### C03 — convergence -/
